@@ -76,7 +76,12 @@ def run_mutant(slot, mut, base_env):
     if 'error' in r.stdout:
         res['status'] = 'does-not-compile'
         return res
-    r = sh('cargo test --workspace --no-fail-fast --offline 2>&1 | grep -E "^test result|FAILED|^error" | sort | uniq -c', cwd=wt, env=env, timeout=2400)
+    try:
+        r = sh('cargo test --workspace --no-fail-fast --offline 2>&1 | grep -E "^test result|FAILED|^error" | sort | uniq -c', cwd=wt, env=env, timeout=900)
+    except subprocess.TimeoutExpired:
+        sh('pkill -f %s' % wt)
+        res['status'] = 'killed-by-suite'      # the suite does not terminate
+        return res
     if 'FAILED' in r.stdout or 'error' in r.stdout or 'failed;' in r.stdout and ' 0 failed' not in r.stdout:
         res['status'] = 'killed-by-suite'
         return res
